@@ -20,7 +20,7 @@ theorem DUse.client_cfg (s0 : Nat) : ∀ a ∈ clCfg s0, DUse.Kept a := by
   all_goals (try (simp at hg; done))
   all_goals (repeat' split)
   all_goals (intro he hm)
-  all_goals (first | (cases hm; done) | (obtain ⟨k1, k2, k3, k4, k5, k6, k7, k8, k9, k10, k11, k12, k13⟩ := h _ he hm))
+  all_goals (first | (cases hm; done) | (obtain ⟨k1, k2, k3, k4, k5, k6, k7, k8, k9, k10, k11, k12, k13, k14⟩ := h _ he hm))
   all_goals (
     have hn1 := nrd_pos k3
     have hrm0 := cv_rmap0 k1 hn1
@@ -30,7 +30,9 @@ theorem DUse.client_cfg (s0 : Nat) : ∀ a ∈ clCfg s0, DUse.Kept a := by
     have hac := fun b => cv_accept k1 b
     have hj := cv_join1 k1
     have hml := mapped_pos0 k1 hn1
-    have hbad := fun k => runmap1_bad k1 k)
+    have hbad := fun k => runmap1_bad k1 k
+    have hI1 := fun a b (i : Nat) => idle_rmap (k14 a b) i; have hI2 := fun a b (i k : Nat) => idle_runmap (k14 a b) i k
+    have hI3 := fun a b => idle_refuse (k14 a b); have hI4 := fun a b => idle_join (k14 a b))
   all_goals constructor
   all_goals (try dsimp only)
   all_goals (repeat' split)
@@ -50,7 +52,7 @@ theorem DUse.client_err (s0 : Nat) : ∀ a ∈ clErr s0, DUse.Kept a := by
   all_goals (try (simp at hg; done))
   all_goals (repeat' split)
   all_goals (intro he hm)
-  all_goals (first | (cases hm; done) | (obtain ⟨k1, k2, k3, k4, k5, k6, k7, k8, k9, k10, k11, k12, k13⟩ := h _ he hm))
+  all_goals (first | (cases hm; done) | (obtain ⟨k1, k2, k3, k4, k5, k6, k7, k8, k9, k10, k11, k12, k13, k14⟩ := h _ he hm))
   all_goals (
     have hn1 := nrd_pos k3
     have hrm0 := cv_rmap0 k1 hn1
@@ -60,7 +62,9 @@ theorem DUse.client_err (s0 : Nat) : ∀ a ∈ clErr s0, DUse.Kept a := by
     have hac := fun b => cv_accept k1 b
     have hj := cv_join1 k1
     have hml := mapped_pos0 k1 hn1
-    have hbad := fun k => runmap1_bad k1 k)
+    have hbad := fun k => runmap1_bad k1 k
+    have hI1 := fun a b (i : Nat) => idle_rmap (k14 a b) i; have hI2 := fun a b (i k : Nat) => idle_runmap (k14 a b) i k
+    have hI3 := fun a b => idle_refuse (k14 a b); have hI4 := fun a b => idle_join (k14 a b))
   all_goals constructor
   all_goals (try dsimp only)
   all_goals (repeat' split)
